@@ -57,7 +57,12 @@ def run(c):
         "answer at every point of the history, Equal(a,b) and Equal(b,a) asked at different points agree, Equal / dns.Equal agree with the keys ForLookup / dns.ForLookup hand out at any other point of the history; "
         "concurrent callers (op par): 6..8 calls over all 15 modelled functions on variants of valid addresses, key pairs of every domain class and local parts every letter of which NFC / lower-casing changes, answered by a single caller "
         "(twice) and then by 2..8 goroutines at the same time (120 rounds, each goroutine starts at another call); monitor: every concurrent answer is the single caller's answer, no concurrent call panics, the answers afterwards are the answers before; "
-        "the model answers hist / par call by call (runHist: C17_hist_answer, C17_par_answer); distinct = distinct op lines",
+        "the model answers hist / par call by call (runHist: C17_hist_answer, C17_par_answer); "
+        "valid internationalized names whose U-label form is far bigger than their A-label form: 1..5 labels of up to 63 letters from nine scripts (Cyrillic, Greek, Latin with marks, Armenian, Hangul, kana / Han, Georgian, Thai, Deseret; "
+        "2..4 octets per letter, few distinct letters per label so that the A-label stays within 63 octets; names within 253 octets as A-labels, 60..700 octets as U-labels, more in NFD; sizes chosen by the harness from the library's idna.ToASCII, never by the code under test) "
+        "in every spelling (NFC / NFD, upper / mixed case, A-labels in lower / upper / random letter case, labels spelled independently, trailing dot) behind plain and respelled local parts; monitor: every spelling shares the ForLookup / dns.ForLookup key and the cleaned domain "
+        "of the U-label AND of the A-label spelling and is Equal / dns.Equal to both, the key is the normal form the harness computes itself (NFC + simple lower case, U-labels, no root dot), ForLookup / dns.ForLookup / CleanDomain are idempotent on what they hand out for any spelling, "
+        "ToASCII / ToUnicode map the two canonical spellings onto one another (model: C17_dns_key_any_size, C17_dns_spellings_any_size, C17_dns_key_idempotent_any_size - no length enters the key); distinct = distinct op lines",
         explanation="theorems for all code-point lists and all primitive implementations; model tied to the code by differential runs; laws of the Unicode primitives sampled",
         search=search,
     )
